@@ -185,3 +185,4 @@ PV_F = ["clap_builder::builder::PossibleValue::{new,alias,matches,get_name_and_a
 for lit, tier in [("fast", "quick"), ("quick", "quick"), ("fas", "quick"), ("fastt", "thorough"), ("quic", "thorough"), ("slow", "thorough")]:
     bld("c04", f"possible_{lit}", ["C04"], tier, f"candidate {lit!r} with a symbolic ASCII case per letter, symbolic ignore_case, against name 'fast' + alias 'quick'", PV_F, slots=[(1, [0, 1])] + mask_slots(lit))
 bld("c04", "twin_c04_possible_must_fail", ["C04"], "quick", "vacuity twin", PV_F, expect="fail")
+
